@@ -955,6 +955,28 @@ func c04AdaptersReportEveryFault(c *cx, id string) {
 			c.r.Floor(id, "stores to "+cls+" in newTeeConn", nw, 1)
 		}
 	}
+	// what the adapter returns is what the wrapped operation returned, both
+	// results, as they are: every return of a Read / Write method is a call of a
+	// wrapped Read / Write with the method's own argument (data that arrives
+	// together with an error - the last bytes with io.EOF - is neither dropped
+	// nor is its error dropped)
+	for _, f := range fns {
+		if f.Decl == nil || (f.Decl.Name.Name != "Read" && f.Decl.Name.Name != "Write") {
+			continue
+		}
+		g := f.Graph()
+		for _, rs := range g.Returns {
+			okr, why := false, "returns "+c.p.NodeStr(rs)
+			if len(rs.Results) == 1 {
+				if cl, isCall := ast.Unparen(rs.Results[0]).(*ast.CallExpr); isCall {
+					if sel, isSel := ast.Unparen(cl.Fun).(*ast.SelectorExpr); isSel && sel.Sel.Name == f.Decl.Name.Name && len(cl.Args) == 1 && f.Norm(cl.Args[0], nil) == "p0" {
+						okr = true
+					}
+				}
+			}
+			c.r.Check(id, f, "adapter return", "K: every return of the adapter's "+f.Decl.Name.Name+" is the wrapped "+f.Decl.Name.Name+"(p) itself (count and error pass through together)", rs.Pos(), okr, why+": the count or the error of the wrapped operation is edited on the way")
+		}
+	}
 	// one operation of the wrapped connection per call, on every path: a
 	// fallback that writes the buffer again after a failed (tee'd) write puts
 	// the bytes on the wire twice
